@@ -282,6 +282,36 @@ Theorem C20_log_history_calls : forall (V : Type) (fmt : V -> str) id calls fs m
 Proof. exact world_calls_are_run. Qed.
 Print Assumptions C20_log_history_calls.
 
+(* reset() of a module or of the Network around it (between the iterations of every optimiser: "clear the
+   sensitivities") and sensitivity() are events of the history language that change NOTHING: whatever a history with
+   them leaves behind (files, iteration numbers of all instances), the history without them leaves behind too *)
+Theorem C20_log_reset_changes_nothing : forall (V : Type) (fmt : V -> str) events w w',
+  log_world_run V fmt w events = Ok w' -> log_world_run V fmt w (l_strip V events) = Ok w'.
+Proof. exact world_run_strip. Qed.
+Print Assumptions C20_log_reset_changes_nothing.
+
+(* hence the theorems above (C20_log_any_file_system, C20_log_file_is_line_model) hold unchanged for the loop
+   response -> sensitivity -> reset -> response ...: the calls of one instance with reset / sensitivity events of any
+   existing instance anywhere in between are the run of the calls alone *)
+Theorem C20_log_history_calls_with_resets : forall (V : Type) (fmt : V -> str) id events calls fs mods m fs' m',
+  nth_error mods id = Some m ->
+  Forall (fun e => match e with LCall i _ => i = id | LReset i | LSens i => (i < length mods)%nat | _ => False end) events ->
+  l_strip V events = map (LCall id) calls ->
+  log_fs_run V fmt fs m calls = Ok (fs', m') ->
+  log_world_run V fmt (fs, mods) events = Ok (fs', lset_nth mods id m').
+Proof. exact world_calls_with_resets. Qed.
+Print Assumptions C20_log_history_calls_with_resets.
+
+Example C20_log_reset_nonvacuous :
+  let id := fun s : str => s in
+  let c k := [(s2z "g", LNum (dec k))] in
+  exists fs, log_world_run str id ([], []) [LNew (s2z "log.txt") [9]; LCall 0%nat (c 7); LSens 0%nat; LReset 0%nat;
+                                              LCall 0%nat (c 8); LReset 0%nat; LReset 0%nat; LCall 0%nat (c 9)]
+             = Ok (fs, [mkM (s2z "log.txt") [9] 3]) /\
+             fs_read fs (s2z "log.txt") = Some (s2z "Iteration" ++ [9] ++ s2z "g" ++ [10] ++ s2z "0" ++ [9] ++ s2z "7" ++ [10]
+                                                  ++ s2z "1" ++ [9] ++ s2z "8" ++ [10] ++ s2z "2" ++ [9] ++ s2z "9" ++ [10]).
+Proof. eexists. split; vm_compute; reflexivity. Qed.
+
 (* WriteToVTI, one response on ANY file system: the file it names holds exactly the bytes of the model's file (what a
    file of that name held before is gone), every other file is untouched; nothing to write: no file is touched *)
 Theorem C20_wvti_file_exact : forall fs m sigs fs' m', wvti_step fs m sigs = Ok (fs', m') ->
@@ -327,6 +357,22 @@ Theorem C20_wvti_history_calls : forall id calls fs mods m fs' m',
   wvti_world_run (fs, mods) (map (VCall id) calls) = Ok (fs', set_nth mods id m').
 Proof. exact vworld_calls_are_run. Qed.
 Print Assumptions C20_wvti_history_calls.
+
+(* the same for WriteToVTI: reset() / sensitivity() events change neither the iteration counters nor the files, so
+   C20_wvti_numbered_files, C20_wvti_last_file and C20_wvti_overwrite_others hold for histories with them *)
+Theorem C20_wvti_reset_changes_nothing : forall events w w',
+  wvti_world_run w events = Ok w' -> wvti_world_run w (v_strip events) = Ok w'.
+Proof. exact vworld_run_strip. Qed.
+Print Assumptions C20_wvti_reset_changes_nothing.
+
+Theorem C20_wvti_history_calls_with_resets : forall id events calls fs mods m fs' m',
+  nth_error mods id = Some m ->
+  Forall (fun e => match e with VCall i _ => i = id | VReset i | VSens i => (i < length mods)%nat | _ => False end) events ->
+  v_strip events = map (VCall id) calls ->
+  wvti_fs_run fs m calls = Ok (fs', m') ->
+  wvti_world_run (fs, mods) events = Ok (fs', set_nth mods id m').
+Proof. exact vworld_calls_with_resets. Qed.
+Print Assumptions C20_wvti_history_calls_with_resets.
 
 (* ------------------------------------------------------------------ repaired defects (F21, F22, F23): what holds now *)
 (* F21: a block of k nodal vectors (k x c*nnodes) goes through the whole of write_to_vti as k point arrays whenever no
